@@ -90,6 +90,10 @@ EXPLANATION += (
     ' Round 14: no function memoised for the life of the process reads a file (R-MEMO/outside-state-not-in-key).'
 )
 
+EXPLANATION += (
+    ' Round 15: merged statistics files are compared tree against tree (R-GUARD/one-tree-per-merge).'
+)
+
 RULE_TEXT = (
     "one obligation per constructor path, per attribute-assignment site, "
     "per mutation candidate, per helper parameter, per accessor x caller, "
